@@ -3,6 +3,7 @@ package harness
 import (
 	"bytes"
 	"fmt"
+	"runtime"
 	"strings"
 
 	"verif/sim/model"
@@ -43,6 +44,11 @@ func (p *C12) Generate(seed uint64, run int) *Case {
 	switch r.Intn(10) {
 	case 0, 1, 2:
 		b = p.w.GenText(r, big)
+		if !big && r.Chance(1, 3) {
+			// medium-size pieces (a few dozen items, several modulations): enough
+			// for work to be split, batched or buffered
+			b = p.w.GenTextN(r, 16+r.Intn(60))
+		}
 	case 3, 4, 5:
 		b = p.w.GenDocCmd(r, big)
 	default:
@@ -78,12 +84,15 @@ func (p *C12) Generate(seed uint64, run int) *Case {
 		p.w.WithDict(r, &b)
 		c.Labels = append(c.Labels, "user-dictionary")
 	}
+	cpus := model.Pick(r, []int{2, 4, 8, 16})
 	base := b.StepOf(r.U64())
 	base.Note = "base"
+	base.CPUs = cpus
 	c.Steps = append(c.Steps, base)
 	add := func(note string, f func(st *Step)) {
 		st := b.StepOf(r.U64())
 		st.Note = note
+		st.CPUs = cpus
 		f(&st)
 		c.Steps = append(c.Steps, st)
 	}
@@ -91,12 +100,20 @@ func (p *C12) Generate(seed uint64, run int) *Case {
 	add("maporder", func(st *Step) { st.MapPolicy = model.Pick(r, []string{"rotate", "shuffle", "shuffle"}) })
 	if b.Class == "text" || r.Chance(1, 4) {
 		add("sched", func(st *Step) { st.SchedPolicy = "random" })
+		add("sched", func(st *Step) { st.SchedPolicy = "rtb-high" })
 		add("sched", func(st *Step) { st.SchedPolicy = model.Pick(r, schedPolicies[2:]) })
 	}
 	if r.Chance(1, 2) {
 		add("maporder+sched", func(st *Step) {
 			st.MapPolicy = "shuffle"
 			st.SchedPolicy = model.Pick(r, schedPolicies[1:])
+		})
+	}
+	add("cpus", func(st *Step) { st.CPUs = 1 })
+	if r.Chance(1, 2) {
+		add("cpus", func(st *Step) {
+			st.CPUs = model.Pick(r, []int{2, 3, 5, 16, 64})
+			st.SchedPolicy = model.Pick(r, schedPolicies)
 		})
 	}
 	add("debug", func(st *Step) { st.Argv = append([]string{"--debug"}, st.Argv...) })
@@ -112,6 +129,21 @@ func (p *C12) Generate(seed uint64, run int) *Case {
 				st.Files = map[string]*simrt.FileSpec{}
 			}
 			st.Files[inPath] = &simrt.FileSpec{Data: st.Stdin.Data, Plan: GenPlan(r)}
+			st.Stdin = nil
+		})
+	}
+	if b.Input != nil && r.Chance(1, 3) {
+		// FILE is a named pipe / process substitution: size 0, bytes arrive in pieces
+		add("inpath:fifo", func(st *Step) {
+			st.Argv = append(st.Argv, inPath)
+			if st.Files == nil {
+				st.Files = map[string]*simrt.FileSpec{}
+			}
+			pl := GenPlan(r)
+			if len(pl.Chunks) == 0 {
+				pl.Chunks = []int{512, 1, 4096}
+			}
+			st.Files[inPath] = &simrt.FileSpec{Data: st.Stdin.Data, Plan: pl, Pipe: true}
 			st.Stdin = nil
 		})
 	}
@@ -265,11 +297,57 @@ func (p *C12) Evaluate(env *Env, c *Case) (*Outcome, error) {
 		})
 	}
 	if !simFinding {
-		// only the real runtime disagrees: a source of nondeterminism (or an
-		// instrumentation effect) outside the seams. Not replayable.
+		// Only the real runtime disagrees. Before calling the simulator
+		// incomplete, look harder inside it: more schedules, map orders and CPU
+		// counts for this very family (the real runtime may simply have taken an
+		// interleaving none of the few variants took).
 		m := mms[0]
-		return nil, Infraf("SIMULATOR-INCOMPLETE: plain execution of `crd %s` disagrees with every simulated execution (%s): plain exit=%d stdout=%q; simulated exit=%d stdout=%q",
-			strings.Join(c.Steps[m.i].Argv, " "), m.what, out.Results[m.i].Exit, first(out.Results[m.i].Stdout, 200), base.Exit, first(base.Stdout, 200))
+		esc := model.NewRand(c.Seed, fmt.Sprintf("C12/escalate/%d", c.Run))
+		pols := []string{"rtb-high", "random", "rtb-random", "prefer-high", "mostly-high", "round-robin", "random", "mostly-low", "rtb-random", "prefer-low"}
+		for k := 0; k < 24; k++ {
+			st := c.Steps[0]
+			st.Note = "sched"
+			st.Seed = esc.U64()
+			st.SchedPolicy = pols[k%len(pols)]
+			// the real runtime saw the host's CPU count
+			st.CPUs = []int{runtime.NumCPU(), runtime.NumCPU(), 1, 2, 3, 4, 8, 64}[k%8]
+			if k%2 == 1 {
+				st.MapPolicy = "shuffle"
+				st.Note = "maporder+sched"
+			}
+			r, err := env.Exec(&st)
+			if err != nil {
+				return nil, err
+			}
+			differs := r.OK() != base.OK() || !bytes.Equal(r.Stdout, base.Stdout)
+			if !differs {
+				continue
+			}
+			// must agree with itself
+			r2, err := env.Exec(&st)
+			if err != nil {
+				return nil, err
+			}
+			if r2.Exit != r.Exit || !bytes.Equal(r2.Stdout, r.Stdout) {
+				return nil, Infraf("SIMULATOR-INCOMPLETE: %q is nondeterministic under a fixed scenario (escalation step of run %d)", strings.Join(st.Argv, " "), c.Run)
+			}
+			what := "result"
+			if r.OK() != base.OK() {
+				what = "status"
+			}
+			c.Steps = append(c.Steps, st)
+			out.Results = append(out.Results, r)
+			out.Findings = append(out.Findings, Finding{
+				Signature: fmt.Sprintf("C12/%s/%s/%s", dimOf(st.Note), what, cmd),
+				Detail: fmt.Sprintf("variant %q (%s, seed %d; found by escalation after the real runtime disagreed) of `crd %s` disagrees with the identity execution: base exit=%d stdout=%q; variant exit=%d stdout=%q",
+					st.Note, st.SchedPolicy, st.Seed, strings.Join(c.Steps[0].Argv, " "), base.Exit, first(base.Stdout, 160), r.Exit, first(r.Stdout, 160)),
+			})
+			return out, nil
+		}
+		// a source of nondeterminism (or an instrumentation effect) outside the seams. Not replayable.
+		out.Incomplete = fmt.Sprintf("SIMULATOR-INCOMPLETE (run %d): plain execution of `crd %s` disagrees with every simulated execution (%s), also after 24 more schedules and CPU counts: plain exit=%d stdout=%q; simulated exit=%d stdout=%q",
+			c.Run, strings.Join(c.Steps[m.i].Argv, " "), m.what, out.Results[m.i].Exit, first(out.Results[m.i].Stdout, 200), base.Exit, first(base.Stdout, 200))
+		return out, nil
 	}
 	return out, nil
 }
